@@ -1,7 +1,932 @@
-//! C10 — stub (not built yet).
+//! C10 — CA protocol CMS accepted iff signed under the peer key, current,
+//! not revoked.
+//!
+//! created:  `SignedMessage::create` messages, validated at times around the
+//!           validity edges under the right and under other keys, verified by
+//!           the harness' own verifier, and tampered at single points.
+//! foreign:  messages assembled by `der.rs` (own X.509 EE certificate, own
+//!           CRL, extra signed attributes) with at most one violated
+//!           condition.
+//! protocol: `ProvisioningCms` / `PublicationCms` create + decode + validate,
+//!           and independently wrapped protocol XML.
 
+use std::str::FromStr;
+
+use bytes::Bytes;
+use proptest::prelude::*;
+use rpki::ca::idexchange::{RecipientHandle, SenderHandle};
+use rpki::ca::provisioning::{self, ProvisioningCms};
+use rpki::ca::publication::{self, PublicationCms};
+use rpki::ca::sigmsg::SignedMessage;
+use rpki::crypto::PublicKey;
+use rpki::repository::x509::{Time, Validity};
+use rpki::uri;
+use serde::{Deserialize, Serialize};
+
+use crate::c02::{
+    content_strategy, eval_strategy, flip_in, flip_strategy, lib_time, opts_strategy, ymd, Content, Eval, Flip, Opts,
+    SIG_F12,
+};
+use crate::der::{self, oids, Cms, CrlSpec, Ext, IdCertSpec, Tm};
 use crate::engine::*;
+use crate::gen::pick_idx;
+use crate::keys::{self, PoolSigner, POOL_SIZE};
+
+pub const RULE: &str = "created: SignedMessage::create with contents 0..4 KiB, validity windows (also across the 2049/2050 \
+UTCTime/GeneralizedTime switch), every issuer / one-off key pair; validate_at at -1s/edge/+1s/mid/far under the right \
+key and under each other pool key; every message also verified by the harness' own verifier (digest, DER SET OF \
+signature via aws-lc-rs, sid, EE and CRL signatures, serial not listed); single bit flips in content / signed \
+attributes / signature / EE TBS / CRL TBS. foreign: der.rs-built v3 EE certificate (AKI present/absent, basic \
+constraints absent/false/true, 0..2 unknown extensions), CRL (AKI, number, 0..50 revoked entries, EE serial listed or \
+not, this/next update around the evaluation time), 0..4 extra signed attributes (binary signing time, random OIDs with \
+0..200-byte values; attribute set 107..~900 bytes, DER order), all algorithm-identifier variants, and at most one \
+violated condition out of: digest, signature key, signed bytes, sid, EE issuer key, CRL issuer key, EE window, CRL \
+window, EE is CA, EE revoked, other peer key, bit flips; oracle = accept iff none. protocol: ProvisioningCms / \
+PublicationCms create->to_bytes->decode->validate_at(now+d) for d inside/outside the +-5 min window and wrong keys; \
+independently wrapped protocol XML decodes to the same message. non-trivial = extra attributes, or non-empty CRL, or \
+any violated condition / tamper.";
+
+fn key_info(idx: usize) -> PublicKey {
+    keys::pool().infos[idx % POOL_SIZE].clone()
+}
+
+fn key_id(idx: usize) -> Vec<u8> {
+    keys::key_id_of_spki(&keys::pool().spki[idx % POOL_SIZE]).expect("pool key id").to_vec()
+}
+
+fn validity(nb: i64, na: i64) -> Validity {
+    Validity::new(lib_time(nb), lib_time(na))
+}
+
+fn window_strategy() -> BoxedStrategy<(i64, i64)> {
+    prop_oneof![
+        3 => (ymd(2024, 1, 1)..ymd(2040, 1, 1), 2i64..40 * 86_400).prop_map(|(nb, d)| (nb, nb + d)),
+        1 => (-3i64..3, 2i64..86_400).prop_map(|(o, d)| (ymd(2050, 1, 1) + o - d, ymd(2050, 1, 1) + o)),
+        1 => (-3i64..3, 2i64..86_400).prop_map(|(o, d)| (ymd(2050, 1, 1) + o, ymd(2050, 1, 1) + o + d)),
+        1 => (ymd(2050, 1, 1)..ymd(2090, 1, 1), 2i64..40 * 86_400).prop_map(|(nb, d)| (nb, nb + d)),
+    ]
+    .boxed()
+}
+
+//============ the harness' own validation of a protocol CMS =====================
+
+/// Everything the property lists, except the time conditions, checked without
+/// the library: CMS layer, EE certificate and CRL signed by pool key
+/// `issuer`, EE not a CA, EE serial not on the CRL.
+fn own_validate(bytes: &[u8], issuer: usize) -> Result<usize, String> {
+    let view = der::cms_parse(bytes)?;
+    view.verify()?;
+    let cert = der::cert_parse(view.certs.first().ok_or("no EE certificate")?)?;
+    if !cert.signed_by(issuer) {
+        return Err("EE certificate not signed by the peer key".into());
+    }
+    if cert.basic_ca == Some(true) {
+        return Err("EE certificate is a CA".into());
+    }
+    let crl = der::crl_parse(view.crls.first().ok_or("no CRL")?)?;
+    if !crl.signed_by(issuer) {
+        return Err("CRL not signed by the peer key".into());
+    }
+    let norm = |s: &[u8]| -> Vec<u8> { s.iter().copied().skip_while(|&b| b == 0).collect() };
+    if crl.revoked.iter().any(|r| norm(r) == norm(&cert.serial)) {
+        return Err("EE serial is on the CRL".into());
+    }
+    Ok(view.attrs_raw.len())
+}
+
+//============ sub-check: created ================================================
+
+#[derive(Clone, Copy, Debug, PartialEq, Eq, Serialize, Deserialize)]
+pub enum ByteTamper {
+    None,
+    SigFlip(Flip),
+    AttrsFlip(Flip),
+    ContentFlip(Flip),
+    CertTbsFlip(Flip),
+    CrlTbsFlip(Flip),
+}
+
+impl ByteTamper {
+    fn label(self) -> &'static str {
+        match self {
+            ByteTamper::None => "tamper:none",
+            ByteTamper::SigFlip(_) => "tamper:sig-flip",
+            ByteTamper::AttrsFlip(_) => "tamper:attrs-flip",
+            ByteTamper::ContentFlip(_) => "tamper:content-flip",
+            ByteTamper::CertTbsFlip(_) => "tamper:cert-tbs-flip",
+            ByteTamper::CrlTbsFlip(_) => "tamper:crl-tbs-flip",
+        }
+    }
+    fn apply(self, bytes: &mut [u8]) -> Result<(), Fail> {
+        if self == ByteTamper::None {
+            return Ok(());
+        }
+        let v = der::cms_parse(bytes)
+            .map_err(|e| Fail::new(format!("harness parser rejects an untampered message: {}", e)))?;
+        match self {
+            ByteTamper::None => Ok(()),
+            ByteTamper::SigFlip(f) => flip_in(bytes, v.span_signature, f),
+            ByteTamper::AttrsFlip(f) => flip_in(bytes, v.span_attrs, f),
+            ByteTamper::ContentFlip(f) => {
+                let r = if v.span_content.0 < v.span_content.1 { v.span_content } else { v.span_attrs };
+                flip_in(bytes, r, f)
+            }
+            ByteTamper::CertTbsFlip(f) => flip_in(bytes, v.span_cert_tbs.ok_or_else(|| Fail::new("no cert"))?, f),
+            ByteTamper::CrlTbsFlip(f) => flip_in(bytes, v.span_crl_tbs.ok_or_else(|| Fail::new("no crl"))?, f),
+        }
+    }
+}
+
+fn byte_tamper_strategy(none_weight: u32) -> BoxedStrategy<ByteTamper> {
+    prop_oneof![
+        none_weight => Just(ByteTamper::None),
+        1 => flip_strategy().prop_map(ByteTamper::SigFlip),
+        1 => flip_strategy().prop_map(ByteTamper::AttrsFlip),
+        1 => flip_strategy().prop_map(ByteTamper::ContentFlip),
+        1 => flip_strategy().prop_map(ByteTamper::CertTbsFlip),
+        1 => flip_strategy().prop_map(ByteTamper::CrlTbsFlip),
+    ]
+    .boxed()
+}
+
+#[derive(Clone, Debug, Serialize, Deserialize)]
+pub struct Created {
+    pub content: Content,
+    pub issuer: u8,
+    /// pool key handed out by `sign_one_off` (differs from the issuer)
+    pub ee_key: u8,
+    pub rng: u64,
+    pub nb: i64,
+    pub na: i64,
+    pub eval: Eval,
+    /// 0: validate under the issuer key; k: under pool key issuer + k
+    pub key_off: u8,
+    pub tamper: ByteTamper,
+}
+
+fn distinct_keys(issuer: u8, ee: u8) -> (u8, u8) {
+    let issuer = issuer % POOL_SIZE as u8;
+    let mut ee = ee % POOL_SIZE as u8;
+    if ee == issuer {
+        ee = (ee + 1) % POOL_SIZE as u8;
+    }
+    (issuer, ee)
+}
+
+fn created_strategy(_: Tier) -> BoxedStrategy<Created> {
+    (
+        content_strategy(),
+        0u8..8,
+        0u8..8,
+        any::<u64>(),
+        window_strategy(),
+        eval_strategy(),
+        prop_oneof![3 => Just(0u8), 1 => 1u8..8],
+        byte_tamper_strategy(10),
+    )
+        .prop_map(|(content, issuer, ee, rng, (nb, na), eval, key_off, tamper)| {
+            let (issuer, ee_key) = distinct_keys(issuer, ee);
+            Created { content, issuer, ee_key, rng, nb, na, eval, key_off, tamper }
+        })
+        .boxed()
+}
+
+fn run_created(c: &Created, obs: &mut Obs) -> CheckResult {
+    let issuer = c.issuer as usize % POOL_SIZE;
+    let signer = PoolSigner::with_first(c.ee_key as usize, c.rng);
+    let data = c.content.bytes();
+    let msg = SignedMessage::create(Bytes::from(data.clone()), validity(c.nb, c.na), &signer.key(issuer), &signer)
+        .map_err(|e| Fail::new(format!("SignedMessage::create failed: {}", e)))?;
+    let mut bytes = msg.to_captured().into_bytes().to_vec();
+
+    // reverse differential: the harness' own verifier must accept it
+    let attrs_len = match own_validate(&bytes, issuer) {
+        Ok(n) => n,
+        Err(e) => {
+            return Err(Fail::new(format!("library-created message does not validate with the independent verifier: {}", e)))
+        }
+    };
+    // ... and only under the issuer key
+    for k in 1..POOL_SIZE {
+        ensure!(own_validate(&bytes, issuer + k).is_err(), "harness verifier accepts a message under a foreign key");
+    }
+    let view = der::cms_parse(&bytes).map_err(Fail::new)?;
+    ensure_eq!(view.content, data, "content of the created message");
+    ensure_eq!(view.content_type.as_slice(), oids::CT_PROTOCOL, "content type of the created message");
+    let cert = der::cert_parse(&view.certs[0]).map_err(Fail::new)?;
+    ensure_eq!(cert.not_before, expected_time_string(c.nb), "EE notBefore");
+    ensure_eq!(cert.not_after, expected_time_string(c.na), "EE notAfter");
+
+    c.tamper.apply(&mut bytes)?;
+    let t = c.eval.time(c.nb, c.na);
+    let in_window = c.nb <= t && t <= c.na;
+    let expect = c.tamper == ByteTamper::None && in_window && c.key_off % POOL_SIZE as u8 == 0;
+    let vkey = key_info(issuer + c.key_off as usize);
+    let got: Result<(), String> = match SignedMessage::decode(bytes.as_slice(), false) {
+        Err(e) => Err(format!("decode: {}", e)),
+        Ok(m) => m.validate_at(&vkey, lib_time(t)).map_err(|e| e.to_string()),
+    };
+    obs.label(c.tamper.label());
+    obs.label(if expect { "expect-accept" } else { "expect-reject" });
+    obs.label_if(!in_window, "out-of-window");
+    obs.label_if(c.key_off % POOL_SIZE as u8 != 0, "other-key");
+    obs.label_if(matches!(c.eval, Eval::Nb | Eval::Na | Eval::NbMinus1 | Eval::NaPlus1 | Eval::NbPlus1 | Eval::NaMinus1), "edge-time");
+    obs.nontrivial_if(c.tamper != ByteTamper::None || !in_window || c.key_off % POOL_SIZE as u8 != 0);
+    verdict("created", expect, &got, attrs_len, &|| {
+        format!("tamper={:?} eval={:?} t={} window=[{}, {}] key_off={}", c.tamper, c.eval, t, c.nb, c.na, c.key_off)
+    })
+}
+
+/// Content octets of the RFC 5280 Time for `secs`.
+fn expected_time_string(secs: i64) -> Vec<u8> {
+    let enc = der::time_varied(Tm::from_unix(secs));
+    enc[2..].to_vec()
+}
+
+fn verdict(what: &str, expect: bool, got: &Result<(), String>, attrs_len: usize, detail: &dyn Fn() -> String) -> CheckResult {
+    if expect {
+        if let Err(e) = got {
+            let msg = format!(
+                "{}: message meeting all conditions of the property was rejected ({}); signed attributes {} bytes; {}",
+                what, e, attrs_len, detail()
+            );
+            if attrs_len >= 128 {
+                return Err(Fail::sig(SIG_F12, msg));
+            }
+            return Err(Fail::new(msg));
+        }
+    } else {
+        ensure!(got.is_ok() == false, "{}: message violating a condition was accepted; {}", what, detail());
+    }
+    Ok(())
+}
+
+//============ sub-check: foreign ================================================
+
+#[derive(Clone, Copy, Debug, PartialEq, Eq, Serialize, Deserialize)]
+pub enum Fault {
+    None,
+    /// message-digest attribute of other content (attributes re-signed)
+    Digest,
+    /// content replaced after signing
+    ContentAfter,
+    /// signed with a key that is not the EE certificate's
+    SigWrongKey,
+    /// signature over attributes that differ in one value
+    SigOtherBytes,
+    /// sid names another key
+    Sid,
+    /// EE certificate signed by a key that is not the peer's
+    EeWrongSigner,
+    /// CRL signed by a key that is not the peer's
+    CrlWrongSigner,
+    /// validated under another peer key
+    OtherPeerKey,
+    Bytes(ByteTamper),
+}
+
+impl Fault {
+    fn label(self) -> &'static str {
+        match self {
+            Fault::None => "fault:none",
+            Fault::Digest => "fault:digest",
+            Fault::ContentAfter => "fault:content-after",
+            Fault::SigWrongKey => "fault:sig-wrong-key",
+            Fault::SigOtherBytes => "fault:sig-other-bytes",
+            Fault::Sid => "fault:sid",
+            Fault::EeWrongSigner => "fault:ee-wrong-signer",
+            Fault::CrlWrongSigner => "fault:crl-wrong-signer",
+            Fault::OtherPeerKey => "fault:other-peer-key",
+            Fault::Bytes(b) => b.label(),
+        }
+    }
+}
+
+/// Position of a window relative to the evaluation time.
+#[derive(Clone, Copy, Debug, PartialEq, Eq, Serialize, Deserialize)]
+pub enum Win {
+    /// [when - a, when + b]
+    Around(u32, u32),
+    /// ends `d` seconds before the evaluation time (d >= 1)
+    Past(u32),
+    /// starts `d` seconds after the evaluation time (d >= 1)
+    Future(u32),
+}
+
+impl Win {
+    fn bounds(self, when: i64) -> (i64, i64) {
+        match self {
+            Win::Around(a, b) => (when - a as i64, when + b as i64),
+            Win::Past(d) => (when - d.max(1) as i64 - 86_400, when - d.max(1) as i64),
+            Win::Future(d) => (when + d.max(1) as i64, when + d.max(1) as i64 + 86_400),
+        }
+    }
+    fn contains_when(self) -> bool {
+        matches!(self, Win::Around(..))
+    }
+}
+
+fn win_strategy() -> BoxedStrategy<Win> {
+    let small = prop_oneof![3 => Just(0u32), 2 => Just(1u32), 2 => 2u32..7200, 1 => 7200u32..40_000_000];
+    prop_oneof![
+        8 => (small.clone(), small.clone()).prop_map(|(a, b)| Win::Around(a, b)),
+        1 => prop_oneof![2 => Just(1u32), 1 => 2u32..100_000].prop_map(Win::Past),
+        1 => prop_oneof![2 => Just(1u32), 1 => 2u32..100_000].prop_map(Win::Future),
+    ]
+    .boxed()
+}
+
+#[derive(Clone, Debug, Serialize, Deserialize)]
+pub enum ExtraAttr {
+    BinarySigningTime(u64),
+    /// 1.3.<arcs> with one OCTET STRING value of `len` octets
+    Random { arcs: Vec<u32>, len: u16, fill: u8 },
+}
+
+impl ExtraAttr {
+    fn encode(&self) -> Vec<u8> {
+        match self {
+            ExtraAttr::BinarySigningTime(t) => der::attr_binary_signing_time(*t),
+            ExtraAttr::Random { arcs, len, fill } => {
+                let mut a: Vec<u64> = vec![1, 3];
+                a.extend(arcs.iter().map(|&x| x as u64));
+                let v: Vec<u8> = (0..*len as usize).map(|i| fill.wrapping_add(i as u8)).collect();
+                der::attr(&der::oid_content(&a), &[der::octets(&v)])
+            }
+        }
+    }
+}
+
+#[derive(Clone, Debug, Serialize, Deserialize)]
+pub struct ExtSpec {
+    pub arcs: Vec<u32>,
+    pub len: u8,
+}
+
+#[derive(Clone, Debug, Serialize, Deserialize)]
+pub struct Foreign {
+    pub content: Content,
+    pub issuer: u8,
+    pub ee_key: u8,
+    /// big-endian, 1..=20 octets, top bit clear
+    pub serial: Vec<u8>,
+    pub when: i64,
+    pub ee_win: Win,
+    pub crl_win: Win,
+    pub ee_aki: bool,
+    /// basic constraints: absent / cA false / cA true
+    pub ee_bc: Option<bool>,
+    pub ee_exts: Vec<ExtSpec>,
+    /// critical keyUsage extension in the EE certificate
+    pub ee_key_usage: bool,
+    pub crl_aki: bool,
+    pub crl_number: Option<u64>,
+    pub crl_exts: Vec<ExtSpec>,
+    /// number of other revoked serials
+    pub revoked_others: u8,
+    pub revoked_has_ee: bool,
+    pub revoked_pos: u16,
+    pub extra_attrs: Vec<ExtraAttr>,
+    pub alg_null: bool,
+    pub opts: Opts,
+    pub fault: Fault,
+}
+
+fn ext_spec_strategy() -> BoxedStrategy<ExtSpec> {
+    (prop::collection::vec(0u32..100_000, 1..5), 0u8..40).prop_map(|(arcs, len)| ExtSpec { arcs, len }).boxed()
+}
+
+/// A non-critical extension under the private arc 1.3.6.1.4.1.<arcs> (never
+/// collides with SKI/AKI/BC/CRL number). RFC 5280: unrecognised non-critical
+/// extensions are ignored.
+fn ext_of(e: &ExtSpec) -> Ext {
+    let mut a: Vec<u64> = vec![1, 3, 6, 1, 4, 1];
+    a.extend(e.arcs.iter().map(|&x| x as u64));
+    der::ext_unknown(&der::oid_content(&a), false, &vec![0xA5; e.len as usize])
+}
+
+/// keyUsage (critical, digitalSignature): the library documents that identity
+/// certificates of some CAs carry it and that it is ignored.
+fn ext_key_usage() -> Ext {
+    Ext { oid: oids::CE_KEY_USAGE.to_vec(), critical: true, value: vec![0x03, 0x02, 0x07, 0x80] }
+}
+
+fn extra_attr_strategy() -> BoxedStrategy<ExtraAttr> {
+    prop_oneof![
+        1 => (0u64..5_000_000_000).prop_map(ExtraAttr::BinarySigningTime),
+        3 => (prop::collection::vec(0u32..70_000, 1..6), prop_oneof![2 => 0u16..30, 2 => 30u16..201], any::<u8>())
+            .prop_map(|(arcs, len, fill)| ExtraAttr::Random { arcs, len, fill }),
+    ]
+    .boxed()
+}
+
+fn fault_strategy() -> BoxedStrategy<Fault> {
+    prop_oneof![
+        7 => Just(Fault::None),
+        1 => Just(Fault::Digest),
+        1 => Just(Fault::ContentAfter),
+        1 => Just(Fault::SigWrongKey),
+        1 => Just(Fault::SigOtherBytes),
+        1 => Just(Fault::Sid),
+        1 => Just(Fault::EeWrongSigner),
+        1 => Just(Fault::CrlWrongSigner),
+        1 => Just(Fault::OtherPeerKey),
+        1 => flip_strategy().prop_map(|f| Fault::Bytes(ByteTamper::SigFlip(f))),
+        1 => flip_strategy().prop_map(|f| Fault::Bytes(ByteTamper::AttrsFlip(f))),
+        1 => flip_strategy().prop_map(|f| Fault::Bytes(ByteTamper::ContentFlip(f))),
+        1 => flip_strategy().prop_map(|f| Fault::Bytes(ByteTamper::CertTbsFlip(f))),
+        1 => flip_strategy().prop_map(|f| Fault::Bytes(ByteTamper::CrlTbsFlip(f))),
+    ]
+    .boxed()
+}
+
+fn foreign_strategy(_: Tier) -> BoxedStrategy<Foreign> {
+    let ids = (0u8..8, 0u8..8, prop::collection::vec(any::<u8>(), 1..=20));
+    let times = (
+        prop_oneof![3 => ymd(2024, 1, 1)..ymd(2049, 1, 1), 1 => ymd(2049, 12, 31)..ymd(2050, 1, 2), 1 => ymd(2050, 1, 2)..ymd(2090, 1, 1)],
+        win_strategy(),
+        win_strategy(),
+    );
+    let ee = (prop::bool::weighted(0.6), prop_oneof![5 => Just(None), 4 => Just(Some(false)), 1 => Just(Some(true))],
+        prop::collection::vec(ext_spec_strategy(), 0..3), prop::bool::weighted(0.3));
+    let crl = (
+        any::<bool>(),
+        prop::option::weighted(0.6, any::<u64>()),
+        prop::collection::vec(ext_spec_strategy(), 0..2),
+        prop_oneof![4 => Just(0u8), 3 => 1u8..6, 2 => 6u8..=50],
+        prop::bool::weighted(0.1),
+        any::<u16>(),
+    );
+    (
+        content_strategy(),
+        ids,
+        times,
+        ee,
+        crl,
+        prop_oneof![3 => Just(Vec::new()), 7 => prop::collection::vec(extra_attr_strategy(), 1..=4)],
+        any::<bool>(),
+        opts_strategy(),
+        fault_strategy(),
+    )
+        .prop_map(
+            |(content, (issuer, ee_key, mut serial), (when, ee_win, crl_win), (ee_aki, ee_bc, ee_exts, ee_key_usage),
+              (crl_aki, crl_number, crl_exts, revoked_others, revoked_has_ee, revoked_pos), extra_attrs, alg_null, opts, fault)| {
+                let (issuer, ee_key) = distinct_keys(issuer, ee_key);
+                serial[0] &= 0x7f;
+                // a CRL without any extension would have an empty extension
+                // list, which X.509 forbids: keep at least the number
+                let crl_number = if !crl_aki && crl_number.is_none() && crl_exts.is_empty() { Some(1) } else { crl_number };
+                Foreign {
+                    content, issuer, ee_key, serial, when, ee_win, crl_win, ee_aki, ee_bc, ee_exts, ee_key_usage, crl_aki, crl_number,
+                    crl_exts, revoked_others, revoked_has_ee, revoked_pos, extra_attrs, alg_null, opts, fault,
+                }
+            },
+        )
+        .boxed()
+}
+
+/// Builds the foreign message; returns (bytes, attribute set size).
+fn build_foreign(c: &Foreign, ctype: &[u8], content: &[u8]) -> Result<(Vec<u8>, usize), Fail> {
+    let issuer = c.issuer as usize % POOL_SIZE;
+    let ee_key = c.ee_key as usize % POOL_SIZE;
+    let (ee_nb, ee_na) = c.ee_win.bounds(c.when);
+    let (crl_this, crl_next) = c.crl_win.bounds(c.when);
+    let cert_spec = IdCertSpec {
+        serial: c.serial.clone(),
+        issuer_cn: format!("issuer-{}", issuer),
+        subject_cn: format!("ee-{}", ee_key),
+        not_before: Tm::from_unix(ee_nb),
+        not_after: Tm::from_unix(ee_na),
+        spki: keys::pool().spki[ee_key].clone(),
+        ski: Some(key_id(ee_key)),
+        aki: if c.ee_aki { Some(key_id(issuer)) } else { None },
+        basic_ca: c.ee_bc,
+        extra_exts: c.ee_exts.iter().map(ext_of).chain(c.ee_key_usage.then(ext_key_usage)).collect(),
+        alg_null: c.alg_null,
+    };
+    let cert_signer = if c.fault == Fault::EeWrongSigner { issuer + 2 } else { issuer };
+    let cert = der::x509_sign(&cert_spec.tbs(), cert_signer, c.alg_null);
+
+    // revoked list: `revoked_others` serials different from the EE's, the
+    // EE serial inserted at `revoked_pos` if requested
+    let norm = |s: &[u8]| -> Vec<u8> { s.iter().copied().skip_while(|&b| b == 0).collect() };
+    let mut revoked: Vec<(Vec<u8>, Tm)> = Vec::new();
+    for i in 0..c.revoked_others as u32 {
+        let mut s = (1_000_003u32.wrapping_mul(i + 1) ^ c.revoked_pos as u32).to_be_bytes().to_vec();
+        s[0] &= 0x7f;
+        if norm(&s) == norm(&c.serial) {
+            s.push(1);
+        }
+        revoked.push((s, Tm::from_unix(crl_this - 86_400 * (i as i64 % 400))));
+    }
+    if c.revoked_has_ee {
+        let pos = pick_idx(c.revoked_pos, revoked.len() + 1);
+        // same number, possibly written with a different count of leading zeros by the caller
+        revoked.insert(pos, (c.serial.clone(), Tm::from_unix(crl_this)));
+    }
+    let crl_spec = CrlSpec {
+        issuer_cn: format!("issuer-{}", issuer),
+        this_update: Tm::from_unix(crl_this),
+        next_update: Tm::from_unix(crl_next),
+        revoked,
+        aki: if c.crl_aki { Some(key_id(issuer)) } else { None },
+        number: c.crl_number.map(|n| n.to_be_bytes().to_vec()),
+        extra_exts: c.crl_exts.iter().map(ext_of).collect(),
+        alg_null: c.alg_null,
+    };
+    let crl_signer = if c.fault == Fault::CrlWrongSigner { issuer + 2 } else { issuer };
+    let crl = der::x509_sign(&crl_spec.tbs(), crl_signer, c.alg_null);
+
+    let extra: Vec<Vec<u8>> = {
+        // identical attributes would make the SET OF ambiguous: keep distinct encodings
+        let mut v: Vec<Vec<u8>> = Vec::new();
+        let mut seen_bst = false;
+        for a in &c.extra_attrs {
+            if matches!(a, ExtraAttr::BinarySigningTime(_)) {
+                if seen_bst {
+                    continue;
+                }
+                seen_bst = true;
+            }
+            let e = a.encode();
+            let oid_of = |x: &Vec<u8>| der::parse_exact(x).ok().and_then(|n| n.get(&[0]).and_then(|o| o.prim_bytes().map(|b| b.to_vec())));
+            if !v.iter().any(|x| oid_of(x) == oid_of(&e)) {
+                v.push(e);
+            }
+        }
+        v
+    };
+    let mut cms = Cms::standard(ctype, content, cert, vec![crl], ee_key, c.opts.st(), &extra, c.opts.cms());
+    let attrs_len = der::attrs_content_len(&cms.attrs);
+    match c.fault {
+        Fault::Digest => {
+            let mut other = content.to_vec();
+            other.push(1);
+            cms.attrs[1] = der::attr_message_digest(&keys::sha256(&other));
+            cms.signature = keys::raw_sign(ee_key, &der::attrs_to_be_signed(&cms.attrs));
+        }
+        Fault::ContentAfter => {
+            if let Some(b) = cms.content.first_mut() {
+                *b ^= 0x01;
+            } else {
+                cms.content.push(0);
+            }
+        }
+        Fault::SigWrongKey => {
+            cms.signature = keys::raw_sign(ee_key + 1, &der::attrs_to_be_signed(&cms.attrs));
+        }
+        Fault::SigOtherBytes => {
+            let mut a = cms.attrs.clone();
+            a[2] = der::attr_signing_time(der::TimeEnc::new(c.opts.st + 1, false));
+            cms.signature = keys::raw_sign(ee_key, &der::attrs_to_be_signed(&a));
+        }
+        Fault::Sid => cms.sid = key_id(ee_key + 1),
+        _ => {}
+    }
+    let mut bytes = cms.encode();
+    if let Fault::Bytes(b) = c.fault {
+        b.apply(&mut bytes)?;
+    }
+    Ok((bytes, attrs_len))
+}
+
+fn foreign_expectation(c: &Foreign) -> bool {
+    c.fault == Fault::None
+        && c.ee_win.contains_when()
+        && c.crl_win.contains_when()
+        && c.ee_bc != Some(true)
+        && !c.revoked_has_ee
+}
+
+fn label_foreign(c: &Foreign, attrs_len: usize, expect: bool, obs: &mut Obs) {
+    obs.label(c.fault.label());
+    obs.label(if expect { "expect-accept" } else { "expect-reject" });
+    obs.label_if(attrs_len >= 128, "attrs>=128");
+    obs.label_if(attrs_len >= 256, "attrs>=256");
+    obs.label_if(!c.ee_win.contains_when(), "ee-not-current");
+    obs.label_if(!c.crl_win.contains_when(), "crl-not-current");
+    obs.label_if(matches!(c.ee_win, Win::Around(0, _) | Win::Around(_, 0)), "ee-edge");
+    obs.label_if(matches!(c.crl_win, Win::Around(0, _) | Win::Around(_, 0)), "crl-edge");
+    obs.label_if(c.ee_bc == Some(true), "ee-is-ca");
+    obs.label_if(c.ee_bc == Some(false), "ee-bc-false");
+    obs.label_if(c.revoked_has_ee, "ee-revoked");
+    obs.label_if(c.revoked_others > 0 && !c.revoked_has_ee, "crl-nonempty-ee-not-listed");
+    obs.label_if(!c.ee_aki, "ee-no-aki");
+    obs.label_if(!c.crl_aki, "crl-no-aki");
+    obs.label_if(!c.extra_attrs.is_empty(), "extra-attrs");
+    obs.label_if(!c.crl_exts.is_empty(), "crl-unknown-ext");
+    obs.label_if(!c.ee_exts.is_empty() || c.ee_key_usage, "ee-unknown-ext");
+    obs.nontrivial_if(!c.extra_attrs.is_empty() || c.revoked_others > 0 || c.revoked_has_ee || !expect);
+}
+
+pub const SIG_CRL_EXT: &str = "crl-unknown-extension-not-skipped";
+
+/// A message whose only peculiarity is an unrecognised non-critical CRL
+/// extension fails to decode: specific finding.
+fn crl_ext_finding(c: &Foreign, expect: bool, got: &Result<(), String>) -> CheckResult {
+    if let (true, Err(e)) = (expect, got) {
+        if e.starts_with("decode") && !c.crl_exts.is_empty() {
+            return Err(Fail::sig(
+                SIG_CRL_EXT,
+                format!(
+                    "message meeting all conditions is rejected at decoding when its CRL carries an unrecognised \
+                     non-critical extension ({}); crl_exts={:?}",
+                    e, c.crl_exts
+                ),
+            ));
+        }
+    }
+    Ok(())
+}
+
+/// Which embedded part does the library refuse to decode? (diagnostics only)
+fn decode_diagnostics(bytes: &[u8]) -> String {
+    let Ok(v) = der::cms_parse(bytes) else { return String::new() };
+    let mut out = String::new();
+    if std::env::var("VERIF_DEBUG_HEX").is_ok() {
+        if let Some(c) = v.crls.first() {
+            out.push_str(&format!(" [CRL {}]", c.iter().map(|b| format!("{:02x}", b)).collect::<String>()));
+        }
+    }
+    if let Some(c) = v.certs.first() {
+        if let Err(e) = rpki::ca::idcert::IdCert::decode(c.as_slice()) {
+            out.push_str(&format!(" [IdCert::decode of the EE certificate: {}]", e));
+        }
+    }
+    out
+}
+
+fn run_foreign(c: &Foreign, obs: &mut Obs) -> CheckResult {
+    let issuer = c.issuer as usize % POOL_SIZE;
+    let content = c.content.bytes();
+    let (bytes, attrs_len) = build_foreign(c, oids::CT_PROTOCOL, &content)?;
+    let expect = foreign_expectation(c);
+    // harness self-consistency: own verifier agrees on the time-independent part
+    let own = own_validate(&bytes, issuer);
+    let own_expect = matches!(c.fault, Fault::None | Fault::OtherPeerKey) && c.ee_bc != Some(true) && !c.revoked_has_ee;
+    if own_expect {
+        ensure!(own.is_ok(), "harness verifier rejects a message of the harness writer: {:?}", own);
+    } else {
+        ensure!(own.is_err(), "harness verifier does not notice {:?} / CA / revoked", c.fault);
+    }
+    let vkey = key_info(if c.fault == Fault::OtherPeerKey { issuer + 1 } else { issuer });
+    let got: Result<(), String> = match SignedMessage::decode(bytes.as_slice(), false) {
+        Err(e) => Err(format!("decode: {}{}", e, decode_diagnostics(&bytes))),
+        Ok(m) => {
+            if c.fault == Fault::None {
+                ensure_eq!(m.content().to_bytes().to_vec(), content, "content of the decoded message");
+            }
+            m.validate_at(&vkey, lib_time(c.when)).map_err(|e| e.to_string())
+        }
+    };
+    label_foreign(c, attrs_len, expect, obs);
+    crl_ext_finding(c, expect, &got)?;
+    verdict("foreign", expect, &got, attrs_len, &|| {
+        format!(
+            "fault={:?} ee_win={:?} crl_win={:?} ee_bc={:?} revoked_has_ee={} others={} ee_aki={} crl_aki={} extra_attrs={}",
+            c.fault, c.ee_win, c.crl_win, c.ee_bc, c.revoked_has_ee, c.revoked_others, c.ee_aki, c.crl_aki, c.extra_attrs.len()
+        )
+    })
+}
+
+//============ sub-check: protocol ===============================================
+
+#[derive(Clone, Debug, Serialize, Deserialize)]
+pub enum ProtoMsg {
+    ProvList { sender: String, recipient: String },
+    PubListQuery,
+    PubSuccess,
+    PubDelta { file: String, data: Vec<u8> },
+}
+
+#[derive(Clone, Debug, Serialize, Deserialize)]
+pub struct Proto {
+    pub msg: ProtoMsg,
+    pub issuer: u8,
+    pub ee_key: u8,
+    pub rng: u64,
+    /// evaluation time as offset (seconds) from the moment of creation
+    pub delta: i32,
+    pub key_off: u8,
+    /// Some: wrapped by der.rs instead of `*Cms::create`
+    pub foreign: Option<Foreign>,
+}
+
+fn proto_strategy(_: Tier) -> BoxedStrategy<Proto> {
+    let handle = "[A-Za-z0-9_-]{1,12}";
+    let msg = prop_oneof![
+        2 => (handle, handle).prop_map(|(sender, recipient)| ProtoMsg::ProvList { sender, recipient }),
+        1 => Just(ProtoMsg::PubListQuery),
+        1 => Just(ProtoMsg::PubSuccess),
+        2 => ("[a-z0-9]{1,8}", prop::collection::vec(any::<u8>(), 1..64)).prop_map(|(file, data)| ProtoMsg::PubDelta { file, data }),
+    ];
+    (
+        msg,
+        0u8..8,
+        0u8..8,
+        any::<u64>(),
+        prop::sample::select(vec![0i32, 60, -60, 240, -240, 420, -420, 3600, -3600, 86_400, -86_400]),
+        prop_oneof![3 => Just(0u8), 1 => 1u8..8],
+        prop::option::weighted(0.5, foreign_strategy(Tier::Quick)),
+    )
+        .prop_map(|(msg, issuer, ee, rng, delta, key_off, foreign)| {
+            let (issuer, ee_key) = distinct_keys(issuer, ee);
+            let foreign = foreign.map(|mut f| {
+                f.issuer = issuer;
+                f.ee_key = ee_key;
+                f
+            });
+            Proto { msg, issuer, ee_key, rng, delta, key_off, foreign }
+        })
+        .boxed()
+}
+
+enum AnyMsg {
+    Prov(provisioning::Message),
+    Publ(publication::Message),
+}
+
+fn make_msg(m: &ProtoMsg) -> Result<AnyMsg, Fail> {
+    Ok(match m {
+        ProtoMsg::ProvList { sender, recipient } => AnyMsg::Prov(provisioning::Message::list(
+            SenderHandle::from_str(sender).map_err(|e| Fail::new(format!("handle: {}", e)))?,
+            RecipientHandle::from_str(recipient).map_err(|e| Fail::new(format!("handle: {}", e)))?,
+        )),
+        ProtoMsg::PubListQuery => AnyMsg::Publ(publication::Message::list_query()),
+        ProtoMsg::PubSuccess => AnyMsg::Publ(publication::Message::success()),
+        ProtoMsg::PubDelta { file, data } => {
+            let u = uri::Rsync::from_string(format!("rsync://example.com/repo/{}.cer", file))
+                .map_err(|e| Fail::new(format!("uri: {}", e)))?;
+            let mut d = publication::PublishDelta::empty();
+            d.add_publish(publication::Publish::with_hash_tag(u, publication::Base64::from_content(data)));
+            AnyMsg::Publ(publication::Message::delta(d))
+        }
+    })
+}
+
+fn run_proto(c: &Proto, obs: &mut Obs) -> CheckResult {
+    let issuer = c.issuer as usize % POOL_SIZE;
+    let msg = make_msg(&c.msg)?;
+    obs.label(match (&msg, c.foreign.is_some()) {
+        (AnyMsg::Prov(_), false) => "provisioning:created",
+        (AnyMsg::Prov(_), true) => "provisioning:foreign",
+        (AnyMsg::Publ(_), false) => "publication:created",
+        (AnyMsg::Publ(_), true) => "publication:foreign",
+    });
+    if let Some(f) = &c.foreign {
+        // independently wrapped protocol XML
+        let xml = match &msg {
+            AnyMsg::Prov(m) => m.to_xml_bytes(),
+            AnyMsg::Publ(m) => m.to_xml_bytes(),
+        };
+        let (bytes, attrs_len) = build_foreign(f, oids::CT_PROTOCOL, xml.as_ref())?;
+        let expect = foreign_expectation(f);
+        let vkey = key_info(if f.fault == Fault::OtherPeerKey { issuer + 1 } else { issuer });
+        let intact = !matches!(f.fault, Fault::ContentAfter | Fault::Bytes(_));
+        let got: Result<(), String> = match &msg {
+            AnyMsg::Prov(m) => match ProvisioningCms::decode(&bytes) {
+                Err(e) => Err(format!("decode: {}", e)),
+                Ok(cms) => {
+                    if intact {
+                        ensure!(cms.message() == m, "decoded provisioning message differs from the wrapped one");
+                    }
+                    cms.validate_at(&vkey, lib_time(f.when)).map_err(|e| e.to_string())
+                }
+            },
+            AnyMsg::Publ(m) => match PublicationCms::decode(&bytes) {
+                Err(e) => Err(format!("decode: {}", e)),
+                Ok(cms) => {
+                    let r = cms.validate_at(&vkey, lib_time(f.when)).map_err(|e| e.to_string());
+                    if intact {
+                        ensure!(&cms.into_message() == m, "decoded publication message differs from the wrapped one");
+                    }
+                    r
+                }
+            },
+        };
+        label_foreign(f, attrs_len, expect, obs);
+        crl_ext_finding(f, expect, &got)?;
+        return verdict("protocol/foreign", expect, &got, attrs_len, &|| format!("fault={:?} msg={:?}", f.fault, c.msg));
+    }
+
+    // library-created: validity is now-5min .. now+5min (wall clock inside the
+    // library); the evaluation time is the creation moment plus `delta`.
+    let signer = PoolSigner::with_first(c.ee_key as usize, c.rng);
+    let t0 = Time::now();
+    let bytes = match &msg {
+        AnyMsg::Prov(m) => ProvisioningCms::create(m.clone(), &signer.key(issuer), &signer)
+            .map_err(|e| Fail::new(format!("ProvisioningCms::create failed: {}", e)))?
+            .to_bytes(),
+        AnyMsg::Publ(m) => PublicationCms::create(m.clone(), &signer.key(issuer), &signer)
+            .map_err(|e| Fail::new(format!("PublicationCms::create failed: {}", e)))?
+            .to_bytes(),
+    };
+    let attrs_len = own_validate(&bytes, issuer).map_err(|e| {
+        Fail::new(format!("library-created protocol CMS does not validate with the independent verifier: {}", e))
+    })?;
+    let when = t0 + chrono::TimeDelta::try_seconds(c.delta as i64).unwrap();
+    // |delta| <= 240 s is inside, >= 420 s outside the +-300 s window even if
+    // creation took up to a minute
+    let in_window = c.delta.abs() <= 240;
+    let expect = in_window && c.key_off % POOL_SIZE as u8 == 0;
+    let vkey = key_info(issuer + c.key_off as usize);
+    let got: Result<(), String> = match &msg {
+        AnyMsg::Prov(m) => match ProvisioningCms::decode(bytes.as_ref()) {
+            Err(e) => return Err(Fail::new(format!("library-created provisioning CMS does not decode: {}", e))),
+            Ok(cms) => {
+                ensure!(cms.message() == m, "decoded provisioning message differs from the created one");
+                cms.validate_at(&vkey, when).map_err(|e| e.to_string())
+            }
+        },
+        AnyMsg::Publ(m) => match PublicationCms::decode(bytes.as_ref()) {
+            Err(e) => return Err(Fail::new(format!("library-created publication CMS does not decode: {}", e))),
+            Ok(cms) => {
+                let r = cms.validate_at(&vkey, when).map_err(|e| e.to_string());
+                ensure!(&cms.into_message() == m, "decoded publication message differs from the created one");
+                r
+            }
+        },
+    };
+    obs.label(if expect { "expect-accept" } else { "expect-reject" });
+    obs.label_if(!in_window, "out-of-window");
+    obs.label_if(c.key_off % POOL_SIZE as u8 != 0, "other-key");
+    obs.nontrivial_if(!expect);
+    verdict("protocol/created", expect, &got, attrs_len, &|| format!("delta={} key_off={} msg={:?}", c.delta, c.key_off, c.msg))
+}
+
+const FOREIGN_FLOORS: &[(&str, f64)] = &[
+    ("attrs>=128", 0.3),
+    ("attrs>=256", 0.08),
+    ("expect-accept", 0.08),
+    ("fault:digest", 0.025),
+    ("fault:content-after", 0.025),
+    ("fault:sig-wrong-key", 0.025),
+    ("fault:sig-other-bytes", 0.025),
+    ("fault:sid", 0.025),
+    ("fault:ee-wrong-signer", 0.025),
+    ("fault:crl-wrong-signer", 0.025),
+    ("fault:other-peer-key", 0.025),
+    ("tamper:sig-flip", 0.025),
+    ("tamper:attrs-flip", 0.025),
+    ("tamper:content-flip", 0.025),
+    ("tamper:cert-tbs-flip", 0.025),
+    ("tamper:crl-tbs-flip", 0.025),
+    ("ee-not-current", 0.08),
+    ("crl-not-current", 0.08),
+    ("ee-edge", 0.15),
+    ("crl-edge", 0.15),
+    ("ee-is-ca", 0.04),
+    ("ee-revoked", 0.04),
+    ("crl-nonempty-ee-not-listed", 0.2),
+    ("ee-no-aki", 0.15),
+    ("crl-no-aki", 0.2),
+];
 
 pub fn property() -> Property {
-    Property { id: "C10", rule: "", assumptions: vec![], subs: vec![] }
+    Property {
+        id: "C10",
+        rule: RULE,
+        assumptions: vec![
+            "RSA PKCS#1 v1.5 / SHA-256 of aws-lc-rs (used directly by the harness) is correct; any change of a signed byte or of a signature value must be rejected",
+            "conditions not named in the property (AKI naming another key, SKI not matching the key, CRLs without an extensions field, non-DER encodings) are not generated",
+            "ProvisioningCms::create / PublicationCms::create take their +-5 min validity from the wall clock: those cases are evaluated at the creation moment + d with |d| <= 4 min (inside) or >= 7 min (outside); creation is assumed to take < 60 s",
+            "SignedMessage::create stores the wall clock as signing time and CRL number; both have fixed encoded lengths and no verdict depends on them",
+        ],
+        subs: vec![
+            PropSub {
+                name: "created",
+                strategy: created_strategy,
+                cases: |t| t.pick(24_000, 600_000),
+                run: run_created,
+                floors: &[
+                    ("expect-accept", 0.15),
+                    ("out-of-window", 0.1),
+                    ("other-key", 0.1),
+                    ("edge-time", 0.2),
+                    ("tamper:sig-flip", 0.03),
+                    ("tamper:attrs-flip", 0.03),
+                    ("tamper:content-flip", 0.03),
+                    ("tamper:cert-tbs-flip", 0.03),
+                    ("tamper:crl-tbs-flip", 0.03),
+                ],
+            }
+            .boxed(),
+            PropSub { name: "foreign", strategy: foreign_strategy, cases: |t| t.pick(40_000, 1_000_000), run: run_foreign, floors: FOREIGN_FLOORS }
+                .boxed(),
+            PropSub {
+                name: "protocol",
+                strategy: proto_strategy,
+                cases: |t| t.pick(12_000, 300_000),
+                run: run_proto,
+                floors: &[
+                    ("provisioning:created", 0.08),
+                    ("provisioning:foreign", 0.08),
+                    ("publication:created", 0.15),
+                    ("publication:foreign", 0.15),
+                    ("expect-accept", 0.15),
+                ],
+            }
+            .boxed(),
+        ],
+    }
 }
